@@ -1,5 +1,328 @@
 /- helper lemmas for TjdProps/C13.lean -/
 import TjdModel.Autojac.Liveness
 namespace Tjd.Liveness
+open Tjd.Autojac (chunkRanges)
+
+/-- the failure test of `engineCall`, on an opaque executed set -/
+def fails (G : LGraph) (ex dead : List Nat) : Bool :=
+  ex.any (fun n => (G.getD n ⟨false, []⟩).hasSaved && dead.contains n)
+
+theorem fails_iff (G : LGraph) (ex dead : List Nat) :
+    fails G ex dead = true ↔ ∃ n ∈ ex, (G.getD n ⟨false, []⟩).hasSaved = true ∧ n ∈ dead := by
+  simp [fails, List.any_eq_true]
+
+theorem fails_congr (G : LGraph) (ex d d' : List Nat)
+    (h : ∀ n ∈ ex, (G.getD n ⟨false, []⟩).hasSaved = true → (n ∈ d ↔ n ∈ d')) :
+    fails G ex d = fails G ex d' := by
+  rw [Bool.eq_iff_iff, fails_iff, fails_iff]
+  constructor
+  · rintro ⟨n, hn, hs, hd⟩; exact ⟨n, hn, hs, (h n hn hs).1 hd⟩
+  · rintro ⟨n, hn, hs, hd⟩; exact ⟨n, hn, hs, (h n hn hs).2 hd⟩
+
+theorem engineCall_eq (G : LGraph) (dead : List Nat) (c : Call) :
+    engineCall G dead c =
+      if fails G (executed G c.outs c.targets) dead then none
+      else if c.retain then some dead
+      else some (dead ++ (executed G c.outs c.targets).filter (fun n => !dead.contains n)) := rfl
+
+theorem mem_release (dead ex : List Nat) (n : Nat) :
+    n ∈ dead ++ ex.filter (fun n => !dead.contains n) ↔ n ∈ dead ∨ n ∈ ex := by
+  simp only [List.mem_append, List.mem_filter, List.contains_eq_mem, Bool.not_eq_eq_eq_not,
+    Bool.not_true, decide_eq_false_iff_not]
+  by_cases h : n ∈ dead <;> simp [h]
+
+theorem engineCall_none_iff (G : LGraph) (dead : List Nat) (c : Call) :
+    engineCall G dead c = none ↔ fails G (executed G c.outs c.targets) dead = true := by
+  rw [engineCall_eq]
+  by_cases h : fails G (executed G c.outs c.targets) dead = true
+  · simp [h]
+  · simp only [h, Bool.false_eq_true, if_false, iff_false]
+    split <;> simp
+
+/-- membership in the liveness state after a successful call -/
+theorem engineCall_some_mem (G : LGraph) (dead d : List Nat) (c : Call)
+    (h : engineCall G dead c = some d) (n : Nat) :
+    n ∈ d ↔ n ∈ dead ∨ (c.retain = false ∧ n ∈ executed G c.outs c.targets) := by
+  rw [engineCall_eq] at h
+  by_cases hf : fails G (executed G c.outs c.targets) dead = true
+  · simp [hf] at h
+  · simp only [hf, Bool.false_eq_true, if_false] at h
+    cases hr : c.retain with
+    | true =>
+      simp only [hr, if_true, Option.some.injEq] at h
+      subst h; simp
+    | false =>
+      simp only [hr, Bool.false_eq_true, if_false, Option.some.injEq] at h
+      subst h; rw [mem_release]; simp
+
+theorem engineCall_retain_some (G : LGraph) (dead d : List Nat) (c : Call) (hr : c.retain = true)
+    (h : engineCall G dead c = some d) : d = dead := by
+  rw [engineCall_eq] at h
+  by_cases hf : fails G (executed G c.outs c.targets) dead = true
+  · simp [hf] at h
+  · simp only [hf, Bool.false_eq_true, if_false, hr, if_true, Option.some.injEq] at h
+    exact h.symm
+
+theorem runCalls_append (G : LGraph) (xs ys : List Call) (d : List Nat) :
+    runCalls G (xs ++ ys) d = (runCalls G xs d).bind (runCalls G ys) := by
+  induction xs generalizing d with
+  | nil => simp [runCalls]
+  | cons c cs ih =>
+    simp only [List.cons_append, runCalls]
+    cases engineCall G d c with
+    | none => simp
+    | some d' => simpa using ih d'
+
+theorem runCalls_single (G : LGraph) (c : Call) (d : List Nat) :
+    runCalls G [c] d = engineCall G d c := by
+  simp only [runCalls]
+  cases engineCall G d c <;> rfl
+
+/-- `k` retaining calls followed by one call on the same outputs/targets = that one call -/
+theorem runCalls_replicate_append (G : LGraph) (o : List Nat) (t : List (Nat × Nat)) (r : Bool)
+    (k : Nat) (dead : List Nat) :
+    runCalls G (List.replicate k ⟨o, t, true⟩ ++ [⟨o, t, r⟩]) dead = engineCall G dead ⟨o, t, r⟩ := by
+  induction k with
+  | zero => simpa using runCalls_single G _ dead
+  | succ k ih =>
+    simp only [List.replicate_succ, List.cons_append, runCalls]
+    cases h : engineCall G dead ⟨o, t, true⟩ with
+    | none =>
+      have h1 := (engineCall_none_iff G dead ⟨o, t, true⟩).1 h
+      exact ((engineCall_none_iff G dead ⟨o, t, r⟩).2 h1).symm
+    | some d =>
+      have := engineCall_retain_some G dead d ⟨o, t, true⟩ rfl h
+      subst this
+      exact ih
+
+theorem range_map_flag (o : List Nat) (t : List (Nat × Nat)) (r : Bool) (k : Nat) :
+    (List.range (k + 1)).map (fun i => (⟨o, t, if i + 1 < k + 1 then true else r⟩ : Call)) =
+      List.replicate k ⟨o, t, true⟩ ++ [⟨o, t, r⟩] := by
+  apply List.ext_getElem
+  · simp
+  · intro i h1 h2
+    simp at h1
+    by_cases h : i < k
+    · rw [List.getElem_append_left (by simpa using h)]
+      simp [h]
+    · have : i = k := by omega
+      subst this
+      simp
+
+theorem chunkRanges_length_pos (m : Nat) (chunk : Option Nat) :
+    ∃ k, (chunkRanges m chunk).length = k + 1 := by
+  simp [chunkRanges]
+
+theorem jacCalls_eq (o : List Nat) (t : List (Nat × Nat)) (m : Nat) (chunk : Option Nat) (r : Bool) :
+    ∃ k, jacCalls o t m chunk r = List.replicate k ⟨o, t, true⟩ ++ [⟨o, t, r⟩] := by
+  obtain ⟨k, hk⟩ := chunkRanges_length_pos m chunk
+  refine ⟨k, ?_⟩
+  simp only [jacCalls, hk]
+  exact range_map_flag o t r k
+
+/-- the chunked sweeps of `Jac` are, for liveness, one engine call -/
+theorem runCalls_jacCalls (G : LGraph) (o : List Nat) (t : List (Nat × Nat)) (m : Nat)
+    (chunk : Option Nat) (r : Bool) (dead : List Nat) :
+    runCalls G (jacCalls o t m chunk r) dead = engineCall G dead ⟨o, t, r⟩ := by
+  obtain ⟨k, hk⟩ := jacCalls_eq o t m chunk r
+  rw [hk, runCalls_replicate_append]
+
+theorem runCalls_append_jacCalls (G : LGraph) (xs : List Call) (o : List Nat) (t : List (Nat × Nat))
+    (m : Nat) (chunk : Option Nat) (r : Bool) (dead : List Nat) :
+    runCalls G (xs ++ jacCalls o t m chunk r) dead = runCalls G (xs ++ [⟨o, t, r⟩]) dead := by
+  rw [runCalls_append, runCalls_append]
+  congr 1
+  funext d
+  rw [runCalls_jacCalls, runCalls_single]
+
+/-- a sequence of calls with a common flag whose executed sets pairwise share no saved node:
+    it fails iff one of the calls would fail on the INITIAL state, and releases the union -/
+theorem runCalls_spec (G : LGraph) (r : Bool) (calls : List Call) (dead : List Nat)
+    (hr : ∀ c ∈ calls, c.retain = r)
+    (hp : calls.Pairwise (fun a b => ∀ n, n ∈ executed G a.outs a.targets →
+        n ∈ executed G b.outs b.targets → (G.getD n ⟨false, []⟩).hasSaved = false)) :
+    (runCalls G calls dead = none ↔
+        ∃ c ∈ calls, fails G (executed G c.outs c.targets) dead = true) ∧
+    ∀ d, runCalls G calls dead = some d → ∀ n,
+      n ∈ d ↔ n ∈ dead ∨ (r = false ∧ ∃ c ∈ calls, n ∈ executed G c.outs c.targets) := by
+  induction calls generalizing dead with
+  | nil =>
+    simp [runCalls]
+  | cons c cs ih =>
+    rw [List.pairwise_cons] at hp
+    have hrc : c.retain = r := hr c (List.mem_cons_self ..)
+    have hrcs : ∀ c' ∈ cs, c'.retain = r := fun c' h => hr c' (List.mem_cons_of_mem _ h)
+    simp only [runCalls]
+    cases h : engineCall G dead c with
+    | none =>
+      refine ⟨⟨fun _ => ⟨c, List.mem_cons_self .., (engineCall_none_iff G dead c).1 h⟩, fun _ => rfl⟩, ?_⟩
+      intro d hd; cases hd
+    | some d1 =>
+      have hm := engineCall_some_mem G dead d1 c h
+      have hnf : ¬ fails G (executed G c.outs c.targets) dead = true := by
+        intro hf
+        rw [(engineCall_none_iff G dead c).2 hf] at h
+        cases h
+      obtain ⟨ih1, ih2⟩ := ih d1 hrcs hp.2
+      have hcongr : ∀ c' ∈ cs, fails G (executed G c'.outs c'.targets) d1 =
+          fails G (executed G c'.outs c'.targets) dead := by
+        intro c' hc'
+        apply fails_congr
+        intro n hn hs
+        rw [hm n]
+        constructor
+        · rintro (h1 | ⟨_, h2⟩)
+          · exact h1
+          · have := hp.1 c' hc' n h2 hn
+            rw [hs] at this; cases this
+        · exact Or.inl
+      refine ⟨?_, ?_⟩
+      · show runCalls G cs d1 = none ↔ _
+        rw [ih1]
+        constructor
+        · rintro ⟨c', hc', hf⟩
+          exact ⟨c', List.mem_cons_of_mem _ hc', by rw [← hcongr c' hc']; exact hf⟩
+        · rintro ⟨c', hc', hf⟩
+          rcases List.mem_cons.1 hc' with rfl | hc'
+          · exact absurd hf hnf
+          · exact ⟨c', hc', by rw [hcongr c' hc']; exact hf⟩
+      · intro d hd n
+        rw [ih2 d hd n, hm n, hrc]
+        constructor
+        · rintro ((h1 | ⟨h2, h3⟩) | ⟨h2, c', hc', h3⟩)
+          · exact Or.inl h1
+          · exact Or.inr ⟨h2, c, List.mem_cons_self .., h3⟩
+          · exact Or.inr ⟨h2, c', List.mem_cons_of_mem _ hc', h3⟩
+        · rintro (h1 | ⟨h2, c', hc', h3⟩)
+          · exact Or.inl (Or.inl h1)
+          · rcases List.mem_cons.1 hc' with rfl | hc'
+            · exact Or.inl (Or.inr ⟨h2, h3⟩)
+            · exact Or.inr ⟨h2, c', hc', h3⟩
+
+/-- the calls of `mtl_backward` with each `Jac` collapsed to one engine call -/
+def mtlCalls' (tasks : List (Nat × List (Nat × Nat))) (features shared : List (Nat × Nat))
+    (retain : Bool) : List Call :=
+  (tasks.map fun t => (⟨[t.1], t.2 ++ features, retain⟩ : Call)) ++
+    (if shared.isEmpty then [] else [⟨features.map (·.1), shared, retain⟩])
+
+theorem runCalls_mtlCalls (G : LGraph) (tasks : List (Nat × List (Nat × Nat)))
+    (features shared : List (Nat × Nat)) (chunk : Option Nat) (retain : Bool) (dead : List Nat) :
+    runCalls G (mtlCalls tasks features shared chunk retain) dead =
+      runCalls G (mtlCalls' tasks features shared retain) dead := by
+  unfold mtlCalls mtlCalls'
+  split
+  · rfl
+  · exact runCalls_append_jacCalls ..
+
+theorem mtlCalls'_retain (tasks : List (Nat × List (Nat × Nat))) (features shared : List (Nat × Nat))
+    (retain : Bool) : ∀ c ∈ mtlCalls' tasks features shared retain, c.retain = retain := by
+  intro c hc
+  unfold mtlCalls' at hc
+  rw [List.mem_append] at hc
+  rcases hc with hc | hc
+  · obtain ⟨t, _, rfl⟩ := List.mem_map.1 hc; rfl
+  · split at hc
+    · cases hc
+    · rw [List.mem_singleton] at hc; subst hc; rfl
+
+theorem mtlCalls'_mem_ex (G : LGraph) (tasks : List (Nat × List (Nat × Nat)))
+    (features shared : List (Nat × Nat)) (retain : Bool) (P : List Nat → Prop) :
+    (∃ c ∈ mtlCalls' tasks features shared retain, P (executed G c.outs c.targets)) ↔
+      (∃ t ∈ tasks, P (executed G [t.1] (t.2 ++ features))) ∨
+      (shared ≠ [] ∧ P (executed G (features.map (·.1)) shared)) := by
+  unfold mtlCalls'
+  constructor
+  · rintro ⟨c, hc, hn⟩
+    rw [List.mem_append] at hc
+    rcases hc with hc | hc
+    · obtain ⟨t, ht, rfl⟩ := List.mem_map.1 hc
+      exact Or.inl ⟨t, ht, hn⟩
+    · split at hc
+      · cases hc
+      · next hs =>
+        rw [List.mem_singleton] at hc; subst hc
+        exact Or.inr ⟨by simpa using hs, hn⟩
+  · rintro (⟨t, ht, hn⟩ | ⟨hs, hn⟩)
+    · exact ⟨_, List.mem_append_left _ (List.mem_map.2 ⟨t, ht, rfl⟩), hn⟩
+    · refine ⟨⟨features.map (·.1), shared, retain⟩, List.mem_append_right _ ?_, hn⟩
+      have : shared.isEmpty = false := by simpa using hs
+      simp [this]
+
+theorem mtlCalls'_pairwise (G : LGraph) (tasks : List (Nat × List (Nat × Nat)))
+    (features shared : List (Nat × Nat)) (retain : Bool)
+    (hdisj : ∀ i j, i < j → j < tasks.length → ∀ n,
+        n ∈ executed G [(tasks.getD i (0, [])).1] ((tasks.getD i (0, [])).2 ++ features) →
+        n ∈ executed G [(tasks.getD j (0, [])).1] ((tasks.getD j (0, [])).2 ++ features) →
+        (G.getD n ⟨false, []⟩).hasSaved = false)
+    (hdisj' : ∀ t ∈ tasks, ∀ n, n ∈ executed G [t.1] (t.2 ++ features) →
+        n ∈ executed G (features.map (·.1)) shared → (G.getD n ⟨false, []⟩).hasSaved = false) :
+    (mtlCalls' tasks features shared retain).Pairwise (fun a b => ∀ n,
+      n ∈ executed G a.outs a.targets → n ∈ executed G b.outs b.targets →
+        (G.getD n ⟨false, []⟩).hasSaved = false) := by
+  unfold mtlCalls'
+  rw [List.pairwise_append]
+  refine ⟨?_, ?_, ?_⟩
+  · rw [List.pairwise_map, List.pairwise_iff_getElem]
+    intro i j hi hj hij n h1 h2
+    have := hdisj i j hij hj n
+    have hi' : i < tasks.length := hi
+    simp only [List.getD_eq_getElem?_getD, List.getElem?_eq_getElem hi', List.getElem?_eq_getElem hj,
+      Option.getD_some] at this
+    exact this h1 h2
+  · split
+    · exact List.Pairwise.nil
+    · exact List.pairwise_singleton _ _
+  · intro a ha b hb n h1 h2
+    obtain ⟨t, ht, rfl⟩ := List.mem_map.1 ha
+    split at hb
+    · cases hb
+    · rw [List.mem_singleton] at hb; subst hb
+      exact hdisj' t ht n h1 h2
+
+theorem mtl_main (G : LGraph) (dead : List Nat)
+    (tasks : List (Nat × List (Nat × Nat))) (features shared : List (Nat × Nat))
+    (chunk : Option Nat) (retain : Bool)
+    (hdisj : ∀ i j, i < j → j < tasks.length → ∀ n,
+        n ∈ executed G [(tasks.getD i (0, [])).1] ((tasks.getD i (0, [])).2 ++ features) →
+        n ∈ executed G [(tasks.getD j (0, [])).1] ((tasks.getD j (0, [])).2 ++ features) →
+        (G.getD n ⟨false, []⟩).hasSaved = false)
+    (hdisj' : ∀ t ∈ tasks, ∀ n, n ∈ executed G [t.1] (t.2 ++ features) →
+        n ∈ executed G (features.map (·.1)) shared → (G.getD n ⟨false, []⟩).hasSaved = false)
+    (hcut : ∀ n, n ∈ executed G (tasks.map (·.1)) (shared ++ tasks.flatMap (·.2)) ↔
+        (∃ t ∈ tasks, n ∈ executed G [t.1] (t.2 ++ features)) ∨
+        (shared ≠ [] ∧ n ∈ executed G (features.map (·.1)) shared)) :
+    ((engineCall G dead ⟨tasks.map (·.1), shared ++ tasks.flatMap (·.2), retain⟩).isSome =
+      (runCalls G (mtlCalls tasks features shared chunk retain) dead).isSome) ∧
+    ∀ dj ds, engineCall G dead ⟨tasks.map (·.1), shared ++ tasks.flatMap (·.2), retain⟩ = some dj →
+      runCalls G (mtlCalls tasks features shared chunk retain) dead = some ds →
+      ∀ n, n ∈ dj ↔ n ∈ ds := by
+  rw [runCalls_mtlCalls]
+  obtain ⟨s1, s2⟩ := runCalls_spec G retain (mtlCalls' tasks features shared retain) dead
+    (mtlCalls'_retain tasks features shared retain)
+    (mtlCalls'_pairwise G tasks features shared retain hdisj hdisj')
+  have hex : ∀ n, (∃ c ∈ mtlCalls' tasks features shared retain, n ∈ executed G c.outs c.targets) ↔
+      n ∈ executed G (tasks.map (·.1)) (shared ++ tasks.flatMap (·.2)) := by
+    intro n
+    rw [hcut n]
+    exact mtlCalls'_mem_ex G tasks features shared retain (fun l => n ∈ l)
+  have hnone : engineCall G dead ⟨tasks.map (·.1), shared ++ tasks.flatMap (·.2), retain⟩ = none ↔
+      runCalls G (mtlCalls' tasks features shared retain) dead = none := by
+    rw [s1, engineCall_none_iff, fails_iff]
+    constructor
+    · rintro ⟨n, hn, hs, hd⟩
+      obtain ⟨c, hc, hnc⟩ := (hex n).2 hn
+      exact ⟨c, hc, (fails_iff ..).2 ⟨n, hnc, hs, hd⟩⟩
+    · rintro ⟨c, hc, hf⟩
+      obtain ⟨n, hnc, hs, hd⟩ := (fails_iff ..).1 hf
+      exact ⟨n, (hex n).1 ⟨c, hc, hnc⟩, hs, hd⟩
+  refine ⟨?_, ?_⟩
+  · cases hj : engineCall G dead ⟨tasks.map (·.1), shared ++ tasks.flatMap (·.2), retain⟩ with
+    | none => rw [hnone.1 hj]
+    | some dj =>
+      cases hs : runCalls G (mtlCalls' tasks features shared retain) dead with
+      | none => rw [hnone.2 hs] at hj; cases hj
+      | some ds => rfl
+  · intro dj ds hj hs n
+    rw [engineCall_some_mem G dead dj _ hj n, s2 ds hs n, hex n]
 
 end Tjd.Liveness
